@@ -20,7 +20,7 @@ from vlib import sqlo
 
 PROP = 'C19'
 META = {
-    'extractors': [],
+    'extractors': ['pyevents'],
     'technique': ('Lean 4 proof (induction over the listener list for every send; per-operation log-shape equations '
                   'for every state and listener configuration; induction over histories; induction over the '
                   'chain depth) + differential correspondence on the merged signal/statement log'),
@@ -33,7 +33,12 @@ META = {
                    'and every created-event follows its INSERT; for an inheritance chain of any depth and every create order, '
                    'every RowCreatedSignal follows the INSERTs of all levels of its object.  The hand-written model is compared '
                    'with the real code on generated histories (eager and lazy classes, 0-6 listeners).'),
-    'level_note': ('Trusted: Lean kernel; pydispatch delivery order (modelled as connection order, checked by the '
+    'level_note': ('TRANSLATOR tie (vlib/extractors/pyevents.py -> Extracted/PyEvents.lean, Model/EventsX.lean): events.listen and '
+                   'sqlmeta.send are translated from the AST on every run (and events.send = dispatcher.send is checked); '
+                   'C19_translated_send_eq_model proves the translated send = the model function deliver, '
+                   'C19_translated_listen_eq_model that listen appends one connection, with pydispatch (connect / send: every '
+                   'connected receiver once in connection order) as a stated parameter. '
+                   'Trusted: Lean kernel; pydispatch delivery order (modelled as connection order, checked by the '
                    'correspondence run); the sampling correspondence.  The lazy path is stated as the code behaves: a lazy '
                    'assign/set delivers only the before-event, syncUpdate delivers one write and one after-event for all '
                    'assignments since the last sync (the property text is silent on how many before-events belong to one '
